@@ -97,7 +97,7 @@ func StructShape(t *rapid.T) Shape {
 
 	// ID field.
 	idForm := rapid.SampledFrom([]string{
-		"ok", "ok", "ok", "ok", "ok", "absent", "json-other", "json-absent", "api-empty", "api-absent", "int", "bytes", "ptr-string", "lowercase",
+		"ok", "ok", "ok", "ok", "ok", "absent", "json-other", "json-absent", "api-empty", "api-absent", "int", "bytes", "ptr-string", "lowercase", "named-string",
 	}).Draw(t, "idform")
 
 	id := FieldShape{Name: "ID", GoType: reflect.TypeOf(""), HasAPI: true, API: rapid.SampledFrom([]string{"t", "types", "a-b"}).Draw(t, "typename"), HasJSON: true, JSON: "id"}
@@ -115,6 +115,8 @@ func StructShape(t *rapid.T) Shape {
 		id.GoType = reflect.TypeOf(int(0))
 	case "bytes":
 		id.GoType = reflect.TypeOf([]byte{})
+	case "named-string":
+		id.GoType = reflect.TypeOf(NamedString(""))
 	case "ptr-string":
 		id.GoType = reflect.PointerTo(reflect.TypeOf(""))
 	case "lowercase":
